@@ -9,6 +9,7 @@ package main
 
 import (
 	"fmt"
+	"os"
 	"sort"
 	"strings"
 	"sync/atomic"
@@ -115,6 +116,8 @@ func build(c Case) (*gen.Program, map[string]string, string) {
 		return gen.Replay(c.Choices, gen.Funcs(gen.FuncCfg{Budget: c.Budget})), nil, ""
 	case "alias":
 		return gen.Replay(c.Choices, gen.Alias(c.Budget)), nil, ""
+	case "limits":
+		return gen.Limits(c.Op, c.Budget), nil, "kind=" + c.Op + "/size=" + fmt.Sprint(c.Budget)
 	case "stmt":
 		return gen.Replay(c.Choices, gen.Stmts(gen.StmtCfg{Budget: c.Budget, Lean: c.Lean})), nil, ""
 	}
@@ -164,6 +167,9 @@ func runCase(c Case) (fails []fail, obs string) {
 	}
 	o := tg.Run(src.Main.Src, tg.Opts{Inputs: implIn, Modules: src.ModMap})
 	feat := features(prog)
+	if c.Family == "limits" {
+		feat = ""
+	}
 	add := func(kind, what string) {
 		sig := c.Family + "/" + kind
 		if detail != "" {
@@ -182,6 +188,10 @@ func runCase(c Case) (fails []fail, obs string) {
 	if o.Class == "panic" {
 		add("impl-panics", "reference: "+r.Class+"; implementation panicked: "+tg.FirstLine(o.ErrText))
 		return fails, obs + "|panic"
+	}
+	if c.Family == "limits" && o.Class == "compile-error" && strings.Contains(o.ErrText, "too many") {
+		// P: a program beyond a static limit is either rejected at compile time or behaves correctly
+		return nil, obs + "|rejected-by-limit"
 	}
 	if o.Class != r.Class {
 		add("class-"+r.Class+"-vs-"+o.Class, fmt.Sprintf("reference: %s %s; implementation: %s %s", r.Class, r.Err, o.Class, tg.FirstLine(o.ErrText)))
@@ -392,7 +402,14 @@ func main() {
 	}
 	var evals, validated int64
 	distinct := report.NewDistinctSet()
+	only := os.Getenv("VERIF_ONLY") // debugging aid: run a single family (the run is then marked not exhaustive)
+	if only != "" {
+		r.NotExhaustive("VERIF_ONLY=" + only)
+	}
 	exec := func(c Case) {
+		if only != "" && c.Family != only {
+			return
+		}
 		fails, obs := runCase(c)
 		n := atomic.AddInt64(&evals, 1)
 		if !strings.HasPrefix(obs, "skip:") {
@@ -509,6 +526,12 @@ func main() {
 		c.Choices = append([]int{}, ch...)
 		exec(c)
 	})
+	phase("limits")
+	for _, k := range gen.LimitKinds {
+		for _, n := range gen.LimitSizes(k) {
+			exec(Case{Family: "limits", Op: k, Budget: n})
+		}
+	}
 	phase("alias")
 	ac := Case{Family: "alias", Budget: r.Pick(3, 4)}
 	gen.ParallelEnumerate(gen.Alias(ac.Budget), 2, func(p *gen.Program, ch []int) {
